@@ -11,9 +11,9 @@ Here is a semantic property the system is supposed to have:
   Statement: {p['statement']}
   Quantified over: {p['quantifier']['text']}
 
-Your task: write a *realistic* change to the source under /tmp/wt-{pid}/src (the kind of slip or 'optimisation' a developer could make) that BREAKS this property, while the crate still compiles (with default features AND with `--features verif`) and the existing test suite still passes (`cargo test --offline` in the worktree; one flaky test `store::tests::tests_store::test_follow` may be ignored). The breakage must need something specific to manifest - a particular multi-step sequence of operations, an unusual input, a particular interleaving/crash point, or two cooperating sites that each look fine alone - NOT something ordinary use would expose at once. Keep the change small (a few lines). Do not touch tests, Cargo.toml features, or src/verif.rs; keep lines starting with `#[cfg(feature = "verif")]` and the statement following them intact.
+Your task: write a *realistic* change to the source under /tmp/wt-{pid}/src (the kind of slip or 'optimisation' a developer could make) that BREAKS this property, while the crate still compiles (with default features AND with `--features verif`) and the existing test suite still passes (`cargo nextest run --workspace --no-fail-fast --offline` in the worktree). The breakage must need something specific to manifest - a particular multi-step sequence of operations, an unusual input, a particular interleaving/crash point, or two cooperating sites that each look fine alone - NOT something ordinary use would expose at once. Keep the change small (a few lines). Do not touch tests, Cargo.toml features, or src/verif.rs; keep lines starting with `#[cfg(feature = "verif")]` and the statement following them intact.
 
-Also write a demonstration: a Rust test (a new file under /tmp/wt-{pid}/tests/ or a #[test] appended to a test module) or a small program that FAILS with your change and PASSES without it (verify both, e.g. with `git stash`). 
+Also write a demonstration: a Rust test (a new file under /tmp/wt-{pid}/tests/ or a #[test] appended to a test module) or a small program that FAILS with your change and PASSES without it (verify both, e.g. by saving your diff to a file and using `git apply -R`; do NOT use `git stash` - the stash is shared with other worktrees). 
 
 Deliver into /tmp/seedout/{pid}/:
   - patch.diff : `git diff` of ONLY the breaking change under src/ (not the demonstration)
